@@ -28,8 +28,11 @@ def canon(name):
     """canonical model name for a codec name, or None if outside the model;
     raises LookupError exactly when the platform does"""
     if isinstance(name, SSeq):
+        if name.kind is not str:
+            raise TypeError("encode() argument 'encoding' must be str, not bytes")
         if NAME_RESOLVER is None:
-            raise Unmodelled('symbolic codec name')
+            from . import codecnames
+            codecnames.install()
         return NAME_RESOLVER(name)
     if not isinstance(name, str):
         raise TypeError('encode() argument \'encoding\' must be str, not %s' % type(name).__name__)
@@ -73,7 +76,7 @@ def encode(s, name, errors='strict'):
         enc, info = r, None
     if enc is None:
         if not isinstance(s, SSeq):
-            return s.encode(name)
+            return info.encode(s)[0] if isinstance(name, SSeq) else s.encode(name)
         return _table_encode(s, name, info)
     s = lift(s)
     ctx = Ctx.cur
@@ -167,7 +170,7 @@ def decode(s, name, errors='strict'):
         enc, info = r, None
     if enc is None:
         if not isinstance(s, SSeq):
-            return s.decode(name)
+            return info.decode(s)[0] if isinstance(name, SSeq) else s.decode(name)
         return _table_decode(s, name, info)
     s = lift(s)
     ctx = Ctx.cur
@@ -326,9 +329,9 @@ def _pinned(s):
 
 def _table_encode(s, name, info):
     vals = _pinned(s)
-    return ''.join(map(chr, vals)).encode(name)
+    return info.encode(''.join(map(chr, vals)))[0]
 
 
 def _table_decode(s, name, info):
     vals = _pinned(s)
-    return bytes(vals).decode(name)
+    return info.decode(bytes(vals))[0]
